@@ -65,6 +65,42 @@ pub fn run_op(line: &str) -> String {
                 }
             }
         }
+        "tf" | "tfd" => {
+            let bytes = unhex(toks[1]).unwrap();
+            match String::from_utf8(bytes) {
+                Err(_) => "notutf8".into(),
+                Ok(s) => op_tf(s),
+            }
+        }
+        "tn" => {
+            let bytes = unhex(toks[1]).unwrap();
+            match String::from_utf8(bytes) {
+                Err(_) => "notutf8".into(),
+                Ok(s) => {
+                    let inv = mqtt_proto::TopicName::is_invalid(&s);
+                    match mqtt_proto::TopicName::try_from(s.clone()) {
+                        Err(_) => {
+                            assert!(inv, "try_from rejects what is_invalid accepts");
+                            "inv=1".into()
+                        }
+                        Ok(t) => {
+                            assert!(!inv && &*t == s.as_str() && t.to_string() == s);
+                            format!("inv=0 shared={} sys={}", t.is_shared() as u8, t.is_sys() as u8)
+                        }
+                    }
+                }
+            }
+        }
+        "utf8" => {
+            let bytes = unhex(toks[1]).unwrap();
+            let a = simdutf8::basic::from_utf8(&bytes).is_ok();
+            let b = std::str::from_utf8(&bytes).is_ok();
+            if a == b {
+                format!("valid={}", a as u8)
+            } else {
+                format!("valid=simd:{} std:{}", a as u8, b as u8)
+            }
+        }
         other => format!("bad-op {}", other),
     }
 }
@@ -89,5 +125,29 @@ pub fn poll_header_probe(frame: &[u8]) -> String {
             GenericPollPacketState::Body(b) => format!("body {} {}", b.header.remaining_len, b.total),
         },
         Err(e) => format!("err {}", error(&e)),
+    }
+}
+
+fn opt_hex(o: Option<&str>) -> String {
+    match o {
+        None => "~".into(),
+        Some(s) => hex_or_dash(s.as_bytes()),
+    }
+}
+
+pub fn op_tf(s: String) -> String {
+    use mqtt_proto::TopicFilter;
+    let (inv, sep) = TopicFilter::is_invalid(&s);
+    match TopicFilter::try_from(s.clone()) {
+        Err(e) => {
+            assert!(inv, "try_from rejects what is_invalid accepts: {e:?}");
+            format!("inv=1 sep={}", sep)
+        }
+        Ok(f) => {
+            assert!(!inv, "try_from accepts what is_invalid rejects");
+            let g = catch_unwind(AssertUnwindSafe(|| opt_hex(f.shared_group_name()))).unwrap_or("panic[str slice]".into());
+            let fl = catch_unwind(AssertUnwindSafe(|| opt_hex(f.shared_filter()))).unwrap_or("panic[str slice]".into());
+            format!("inv=0 sep={} shared={} group={} filter={} sys={}", sep, f.is_shared() as u8, g, fl, f.is_sys() as u8)
+        }
     }
 }
